@@ -1401,9 +1401,23 @@ impl DB {
 
         loop {
             let num_level_zero_files = mutex_guard.version_set.num_files_at_level(0);
+            #[cfg(feature = "verif")]
+            let verif_view = crate::verif::RoomView {
+                force: force_compaction,
+                allow_delay: allow_write_delay,
+                bad: mutex_guard.maybe_bad_database_state.is_some(),
+                level0_files: num_level_zero_files,
+                fits: self.memtable().approximate_memory_usage()
+                    <= self.options.max_memtable_size(),
+                empty: self.memtable().is_empty(),
+                imm: mutex_guard.maybe_immutable_memtable.is_some(),
+                prev_wal: mutex_guard.version_set.maybe_prev_wal_number().is_some(),
+            };
 
             if mutex_guard.maybe_bad_database_state.is_some() {
                 // We encountered an issue with a background task. Return with the error.
+                #[cfg(feature = "verif")]
+                self.verif_room_event(verif_view, "errBad");
                 let error = mutex_guard.maybe_bad_database_state.clone().unwrap();
                 log::error!("Stopping compaction check because there may be a relevant background error. Error: {}", error);
 
@@ -1417,6 +1431,8 @@ impl DB {
                 the writer.
                 */
                 log::info!("Slowing down write's to allow some some time for compaction");
+                #[cfg(feature = "verif")]
+                self.verif_room_event(verif_view, "delay");
                 let one_millis = time::Duration::from_millis(1);
                 parking_lot::MutexGuard::<'_, GuardedDbFields>::unlocked_fair(mutex_guard, || {
                     thread::sleep(one_millis);
@@ -1429,6 +1445,8 @@ impl DB {
             {
                 // An empty memtable always has room. Its bookkeeping alone can exceed a very small
                 // `max_memtable_size`, and rotating an empty memtable would never make progress.
+                #[cfg(feature = "verif")]
+                self.verif_room_event(verif_view, "proceed");
                 log::debug!("There is room in the memtable for writes. Proceeding with write.");
                 return Ok(());
             } else if mutex_guard.maybe_immutable_memtable.is_some() {
@@ -1440,15 +1458,21 @@ impl DB {
                     "Current memtable is full but the previous memtable is still compacting. \
                     Waiting before attempting to compact current memtable."
                 );
+                #[cfg(feature = "verif")]
+                self.verif_room_event(verif_view, "waitImm");
                 self.background_work_finished_signal.wait(mutex_guard);
             } else if num_level_zero_files >= L0_STOP_WRITES_TRIGGER {
                 log::info!(
                     "Too many level 0 files. Waiting for compaction before proceeding with write \
                     operations."
                 );
+                #[cfg(feature = "verif")]
+                self.verif_room_event(verif_view, "waitL0");
                 self.background_work_finished_signal.wait(mutex_guard);
             } else {
                 if mutex_guard.version_set.maybe_prev_wal_number().is_some() {
+                    #[cfg(feature = "verif")]
+                    self.verif_room_event(verif_view, "errPrevWal");
                     let error_msg =
                         "Detected that the memtable is already undergoing compaction (possibly by \
                         another thread) while the current thread is attempting to start a \
@@ -1465,6 +1489,8 @@ impl DB {
                     log::info!("Memtable is full. Attempting compaction.");
                 }
 
+                #[cfg(feature = "verif")]
+                self.verif_room_event(verif_view, "rotate");
                 // First create a new WAL file.
                 let new_wal_number = mutex_guard.version_set.get_new_file_number();
                 let wal_file_path = self.file_name_handler.get_wal_file_path(new_wal_number);
@@ -1816,6 +1842,16 @@ impl DB {
     }
 
     /// Record a step of the scheduling protocol (must be called with the mutex held).
+    #[cfg(feature = "verif")]
+    fn verif_room_event(&self, view: crate::verif::RoomView, branch: &'static str) {
+        if crate::verif::room_events() {
+            crate::verif::event(
+                self.options.db_path(),
+                crate::verif::Event::MakeRoom { view, branch },
+            );
+        }
+    }
+
     #[cfg(feature = "verif")]
     pub(crate) fn verif_sched_event(
         db_state: &PortableDatabaseState,
